@@ -203,6 +203,32 @@ func guardedMarshal(cfg codecCfg, v interface{}) (data []byte, err error) {
 	return cfg.Marshal(v)
 }
 
+// poisons are documents the decoder has to reject (or may accept: their outcome
+// is not judged). Every third decode of a case is preceded by one of them in
+// the same goroutine: what a failed decode leaves behind (scratch buffers,
+// pooled maps, package-level state) must not leak into the next, valid, decode.
+var poisons = []struct {
+	text string
+	into func() interface{}
+}{
+	{`{"version":0.6,"elements":[{"type":"node","id":1,"tags":{"ele":412,"name":"Old Mill","tourism":"viewpoint"}}]}`, func() interface{} { return &osm.OSM{} }},
+	{`{"type":"node","id":1,"lat":1,"lon":2,"tags":{"zz-left-behind":"x","n":5}}`, func() interface{} { return &osm.Node{} }},
+	{`{"elements":[{"type":"way","id":1,"nodes":[7,8,"x"],"tags":{"w":"1"}}]}`, func() interface{} { return &osm.OSM{} }},
+	{`{"elements":[{"type":"relation","id":1,"members":[{"type":"node","ref":5,"role":"a"},{"type":"node","ref":"r","role":1}]}]}`, func() interface{} { return &osm.OSM{} }},
+	{`{"elements":[{"type":"node","id":1,"lat":"north","user":"u","uid":3}]}`, func() interface{} { return &osm.OSM{} }},
+	{`{"version":"0.6","generator":"g","elements":[{"type":"node","id":1,"tags":{"a":"b"`, func() interface{} { return &osm.OSM{} }},
+	{`{"type":"way","id":3,"nodes":[1,2],"tags":{"k":"v","bad":[1]}}`, func() interface{} { return &osm.Way{} }},
+	{`{"type":"changeset","id":9,"tags":{"comment":"c","n":null,"m":1}}`, func() interface{} { return &osm.Changeset{} }},
+}
+
+func poison(cfg codecCfg, seed int) {
+	if seed%3 != 0 {
+		return
+	}
+	p := poisons[(seed/3)%len(poisons)]
+	_ = guardedUnmarshal(cfg, []byte(p.text), p.into())
+}
+
 func guardedUnmarshal(cfg codecCfg, data []byte, v interface{}) (err error) {
 	defer func() {
 		if p := recover(); p != nil {
@@ -319,6 +345,7 @@ func (rn *runner) checkCase(c Case, sl *slot) {
 				rep("shape/element-type-wrong", fmt.Sprintf("elements by type: got %v want %v in %s", got, want, clip(string(data))))
 			}
 		}
+		poison(rn.cfg, len(data))
 		if err := guardedUnmarshal(rn.cfg, append([]byte(nil), data...), out); err != nil {
 			key := "roundtrip/unmarshal-error/" + label
 			if c.hasTopBounds() && strings.Contains(err.Error(), "could not find type") {
@@ -340,6 +367,7 @@ func (rn *runner) checkCase(c Case, sl *slot) {
 		if _, err := parseGeneric([]byte(text)); err != nil {
 			kit.Fatalf("C05 document writer produced invalid JSON (%v): %s", err, text)
 		}
+		poison(rn.cfg, len(text))
 		if err := guardedUnmarshal(rn.cfg, []byte(text), out); err != nil {
 			rep("decode/unmarshal-error/"+label, fmt.Sprintf("valid osmjson rejected: %v: %s", err, clip(text)))
 			return
